@@ -114,6 +114,8 @@ var g04AttrPrefixes = []g04AttrPrefix{
 	{"x' ", false}, {"x'/", false}, {"x'", false}, {"' ", false},
 	{"x\" ", false}, {"x\"/", false}, {"x\"", false}, {"\" ", false},
 	{"x` ", false}, {"x`/", false}, {"x`", false}, {"` ", false},
+	// the closing quote is the very first byte, nothing before the attribute
+	{"`", false}, {"'", false}, {"\"", false}, {"`/", false}, {"'/", false}, {"\"/", false},
 }
 
 var g04Seps = []string{"", " ", "\t", "\n", "\v", "\f", "\r", "/", "  ", " / "}
@@ -156,10 +158,18 @@ func applyMask(s string, mask uint64) string {
 }
 
 func insertNul(name string, at int) string {
+	if at <= 0 {
+		return name
+	}
+	run := 1
+	if at >= 1000 {
+		// at = 1000*run + position: a run of NULs
+		run, at = at/1000, at%1000
+	}
 	if at <= 0 || at >= len(name) {
 		return name
 	}
-	return name[:at] + "\x00" + name[at:]
+	return name[:at] + strings.Repeat("\x00", run) + name[at:]
 }
 
 func isHexDigit(c byte) bool {
@@ -167,7 +177,7 @@ func isHexDigit(c byte) bool {
 }
 
 // encodeScheme renders each scheme byte with the chosen encoding:
-// 0 literal, 1 &#D; 2 &#D 3 &#0..0D; 4 &#xH; 5 &#XH 6 &#x0H; 7 literal.
+// 0 literal, 1 &#D; 2 &#D 3 &#0..0D; (1-12 zeros) 4 &#xH; 5 &#XH 6 &#x0..0H; (1-12 zeros) 7 literal.
 func encodeScheme(s string, enc, inter uint64, mask uint64, lfOK bool) string {
 	s = applyMask(s, mask)
 	var b strings.Builder
@@ -204,7 +214,8 @@ func encodeScheme(s string, enc, inter uint64, mask uint64, lfOK bool) string {
 				fmt.Fprintf(&b, "&#%d", c)
 			}
 		case 3:
-			fmt.Fprintf(&b, "&#0000%d;", c)
+			// 1-12 leading zeros
+			fmt.Fprintf(&b, "&#%s%d;", strings.Repeat("0", 1+int((enc^(enc>>7)^uint64(i)*2654435761)%12)), c)
 		case 4:
 			fmt.Fprintf(&b, "&#x%x;", c)
 		case 5:
@@ -214,7 +225,7 @@ func encodeScheme(s string, enc, inter uint64, mask uint64, lfOK bool) string {
 				fmt.Fprintf(&b, "&#X%X", c)
 			}
 		case 6:
-			fmt.Fprintf(&b, "&#x00%X;", c)
+			fmt.Fprintf(&b, "&#x%s%X;", strings.Repeat("0", 1+int((enc^(enc>>11)^uint64(i)*40503)%12)), c)
 		default:
 			b.WriteByte(c)
 		}
@@ -317,6 +328,9 @@ func genC04(w *core.Worker, u core.Unit, emit func(s, meta string)) {
 			o = g04Opts{mask: r.U64(), nulAt: -1, sep: r.Intn(64), quote: r.Intn(64), end: r.Intn(64), prefix: r.Intn(1024), enc: r.U64(), junk: r.Intn(64), inter: 0, eqPad: r.Intn(64)}
 			if r.Intn(3) == 0 && len(v.name) > 1 {
 				o.nulAt = 1 + r.Intn(len(v.name)-1)
+				if r.Intn(4) == 0 {
+					o.nulAt += 1000 * (2 + r.Intn(120)) // NUL run
+				}
 			}
 			if r.Intn(3) == 0 {
 				o.inter = r.U64() & r.U64() & 0x7ffff
